@@ -9,7 +9,7 @@ inline Typification X() { return Typification("X1"); }
 inline Typification B(const Typification& t) { return t.Bool(); }
 inline Typification T2(const Typification& a, const Typification& b) { return Typification::Tuple({a, b}); }
 inline Typification T3(const Typification& a, const Typification& b, const Typification& c) { return Typification::Tuple({a, b, c}); }
-static const int NTYPES = 14;
+static const int NTYPES = 18;
 inline Typification TypeNo(int i) {
   switch (i) {
   case 0: return X();
@@ -25,7 +25,12 @@ inline Typification TypeNo(int i) {
   case 10: return B(B(T2(X(), X())));
   case 11: return T2(T2(X(), X()), B(X()));
   case 12: return B(T3(X(), X(), Typification::Integer()));
-  default: return B(B(B(X())));
+  case 13: return B(B(B(X())));
+  // a nested collection that is NOT the last component of a tuple (what follows an empty nested set must still be found)
+  case 14: return T2(B(B(X())), X());
+  case 15: return B(T2(B(B(X())), X()));
+  case 16: return T2(B(T2(X(), B(X()))), X());
+  default: return T3(B(X()), B(B(X())), X());
   }
 }
 // full recursive structure check through the public API only
